@@ -1,3 +1,37 @@
-From Asynq Require Import Machine.
-Theorem C08_placeholder : True. Proof. exact I. Qed.
-Print Assumptions C08_placeholder.
+(* C08 — active task is always the running one; scheduler is clean after any outcome.
+   Statements only; proofs in proofs/MachineC08.v.  The hypothesis [no_unwind] says that no Python
+   exception propagated through asynq's own frames during the run; in the model such unwinding
+   starts only at the MAX_TASK_STACK_SIZE guard (covered by C08_guard_resets) or at
+   FutureIsAlreadyComputed raised by _queue_exit. *)
+From Asynq Require Import Machine proofs.MachineC08.
+
+Theorem C08_active_is_running : forall P h s n t p,
+  tasks s = [] -> no_unwind P n (start h s) ->
+  c_mode (run P n (start h s)) = MRun t p -> active (c_st (run P n (start h s))) = Some t.
+Proof. exact active_is_running. Qed.
+Print Assumptions C08_active_is_running.
+
+Theorem C08_clean_after_outcome : forall P h s n o,
+  tasks s = [] -> no_unwind P n (start h s) ->
+  c_mode (run P n (start h s)) = MDone o ->
+  active (c_st (run P n (start h s))) = active s /\ tasks (c_st (run P n (start h s))) = [].
+Proof. exact clean_after_outcome. Qed.
+Print Assumptions C08_clean_after_outcome.
+
+Theorem C08_step_preserves_frame_discipline : forall a0 P c,
+  is_unwind (c_mode c) = false -> Inv a0 c -> Inv a0 (step P c).
+Proof. exact step_inv. Qed.
+Print Assumptions C08_step_preserves_frame_discipline.
+
+Theorem C08_guard_resets : forall P init fr s,
+  (init < length (tasks s))%nat -> (p_maxstack P < Z.of_nat (length (tasks s)))%Z ->
+  let c' := step P (mkC MExecLoop (FExec init :: fr) s) in
+  c_mode c' = MUnwind E_RUNTIME /\ tasks (c_st c') = [] /\ sb (c_st c') = [] /\ active (c_st c') = None.
+Proof. exact guard_resets. Qed.
+Print Assumptions C08_guard_resets.
+
+Theorem C08_hypotheses_satisfiable :
+  no_unwind_b demo_P 200 demo_start = true /\
+  c_mode (run demo_P 200 demo_start) = MDone (Ok (VInt 5)).
+Proof. exact demo_runs_clean. Qed.
+Print Assumptions C08_hypotheses_satisfiable.
